@@ -145,7 +145,12 @@ func (g *fgen) rmutate(n *rnode, change, drop, add float64, apis []string) *rnod
 	}
 	if g.chance(g.badProb) {
 		// a call whose snapshot location cannot be created: exactly one failure, nothing else
-		m.calls = append(m.calls, &callSpec{api: g.pick("snapshot", "json", "yaml", "ssnap", "sjson"), cfg: "bad", val: strVal(`{"a":1}`), x: &Expect{Unwritable: true}})
+		if g.chance(0.5) {
+			m.calls = append(m.calls, &callSpec{api: g.pick("snapshot", "json", "yaml", "ssnap", "sjson"), cfg: "bad", val: strVal(`{"a":1}`), x: &Expect{Unwritable: true}})
+		} else {
+			// the parent directory can be created, the file cannot be opened (its path is a directory)
+			m.calls = append(m.calls, &callSpec{api: g.pick("snapshot", "json", "yaml"), cfg: "isd", val: strVal(`{"a":1}`), x: &Expect{Unwritable: true}})
+		}
 	}
 	return m
 }
@@ -206,7 +211,7 @@ func genCleanScenarios(g *fgen, n int, apis []string, modes []string, opt cleanG
 		p := g.rprogram(apis, cfgs, opt.maxTests, opt.maxCalls)
 		sc := &Scenario{ID: g.id(), Configs: stdConfigs()}
 		g.skipProb, g.parProb, g.badProb, g.moveProb = opt.skipProb, opt.parProb, opt.badProb, opt.moveProb
-		sc.Init = append(sc.Init, InitFile{P: "blocker", Content: []byte("a regular file\n"), Role: "other"})
+		sc.Init = append(sc.Init, InitFile{P: "blocker", Content: []byte("a regular file\n"), Role: "other"}, InitFile{P: "snaps/isdir.snap", IsDir: true})
 		if g.chance(opt.staleProb) {
 			sc.Init = append(sc.Init, staleFile(g, "main_test"))
 		}
